@@ -197,6 +197,29 @@ impl ConnDriver {
         d
     }
 
+    /// a connection whose limit is never set: the documented default (0.05 MiB = 51200) applies
+    pub fn new_default(rec: &mut Rec) -> Self {
+        let stream = Scripted::new();
+        let conn = HttpConnection::new(stream.clone());
+        let mut d = ConnDriver {
+            conn: Some(conn),
+            stream,
+            tokens: Tokens::new(),
+            limit: 51200,
+            delivered: vec![],
+            held: vec![],
+            first_error: None,
+            panicked: false,
+            stop_on_parse_error: false,
+            rest: vec![],
+            log: vec![],
+        };
+        rec.n_conn_new += 1;
+        d.emit(rec, "l00 0".to_string(), "ok".into());
+        d.emit(rec, "conn new default".to_string(), "ok".into());
+        d
+    }
+
     /// for replays: create the connection and emit only the given `conn new …` line
     pub fn new_quiet(rec: &mut Rec, limit: usize, line: &str) -> Self {
         let stream = Scripted::new();
